@@ -88,24 +88,24 @@ def overlay (old : Bytes) (off : Nat) (bs : Bytes) : Bytes :=
   old.take off ++ bs ++ old.drop (off + bs.length)
 
 inductive LockRes
-  | eof                          -- first read hit the end of the file: `ReadLock` returns io.EOF
+  | eof (buf : Bytes)            -- `ReadLock` returns io.EOF (end of file at the first OR the second read); `buf` = buffer afterwards
   | lenErr                       -- "Lock Len error"
   | ok (buf : Bytes) (r : Rd)    -- `ReadLock` returns nil; `buf` = the (reused) 64-byte record buffer afterwards
   deriving Repr
 
 /-- `AofFile.ReadLock` (aof.go 310–339). `old` is the caller's record buffer: ONE buffer for all records of all files
-(`LoadAofFiles` allocates it once). Line 329 returns `err` — the FIRST read's error, which is nil — when the SECOND read
-fails: the caller sees success and decodes `old` with only its first `n` bytes replaced. -/
+(`LoadAofFiles` allocates it once). When the SECOND read fails its error (io.EOF) is returned: a torn tail ends the file like
+a clean end does; the buffer keeps the `n` bytes the first read put there. -/
 def readLock (r : Rd) (old : Bytes) : LockRes :=
   match r.read 64 with
-  | none => .eof
+  | none => .eof old
   | some (n, r1) =>
     let b1 := overlay old 0 (r.s.take n)
     let lockLen := le16 b1 0
     if n = lockLen + 2 then .ok b1 r1
     else
       match r1.read (64 - n) with
-      | none => .ok b1 r1
+      | none => .eof b1
       | some (nn, r2) =>
         let b2 := overlay b1 n (r1.s.take nn)
         if n + nn = lockLen + 2 then .ok b2 r2 else .lenErr
@@ -189,7 +189,7 @@ def loadLoop (now : Int) : Nat → Rd → Option Rd → Bytes → List Rec × St
   | 0, _, _, buf => ([], .err, buf)
   | f + 1, r, d, buf =>
     match readLock r buf with
-    | .eof => ([], .fileEnd, buf)
+    | .eof b => ([], .fileEnd, b)
     | .lenErr => ([], .err, buf)
     | .ok b r' =>
       if hasData b then
@@ -274,10 +274,11 @@ def Wr.writeAll : Wr → List Rec → List (List W) × Wr
       (a :: rest, w2)
 
 /-- `AofFile.Open` with `os.O_WRONLY` (append) on an existing record file: empty ⇒ header; 1–11 bytes ⇒ truncate + header;
-otherwise the file is kept AS IS (no check that its length is 12 mod 64). -/
+length not 12 mod 64 ⇒ truncated back to the last record boundary; otherwise kept as is. The `.dat` file is never touched. -/
 def openAppend (rec : Bytes) : Bytes :=
   if rec.length = 0 then headerBytes
   else if rec.length < 12 then headerBytes
+  else if (rec.length - 12) % 64 ≠ 0 then rec.take (rec.length - (rec.length - 12) % 64)
   else rec
 
 def applyW (img : Bytes × Bytes) : W → Bytes × Bytes
@@ -481,7 +482,7 @@ def pushAge (ct start : Int) : Nat :=
   let a := ct - start
   if a < 0 ∨ a ≥ 0xffff then 0xffff else a.toNat
 
-/-- `Aof.GetAofLockExpriedTime`: the remaining lifetime stored in the record. -/
+/-- `Aof.GetAofLockExpriedTime`: the remaining lifetime stored in the record (saturating at 0xffff). -/
 def writeRemaining (ef e : Nat) (d : Option Int) (ct : Int) : Nat :=
   if ef &&& EXPRIED_FLAG_UNLIMITED_EXPRIED_TIME ≠ 0 then e
   else if ef &&& EXPRIED_FLAG_MILLISECOND_TIME ≠ 0 then e
@@ -490,10 +491,10 @@ def writeRemaining (ef e : Nat) (d : Option Int) (ct : Int) : Nat :=
     let secs := dl - ct
     if ef &&& EXPRIED_FLAG_MINUTE_TIME ≠ 0 then
       if secs ≥ 60 ∧ secs % 60 = 0 then u16 (secs / 60)
-      else if secs > 0 then (u16 (secs / 60) + 1) % 65536
+      else if secs > 0 then (if secs / 60 ≥ 0xffff then 0xffff else (u16 (secs / 60) + 1) % 65536)
       else 0
     else if dl > 0 then
-      if secs > 0 then u16 secs else 0
+      if secs > 0 then (if secs > 0xffff then 0xffff else u16 secs) else 0
     else e
 
 /-- `Aof.GetLockCommandExpriedTime`: the `Expried` of the command replayed at `now`. -/
